@@ -129,6 +129,8 @@ var (
 		{"192.168.1.0/24", []string{"192.168.1.128/25", "192.168.1.0/30"}},
 		{"0.0.0.0/0", []string{"10.0.0.0/8", "128.0.0.0/1"}},
 		{"10.1.2.0/24", nil},
+		{"9.0.0.0/8", []string{"9.9.0.0/16"}}, // sorts after 10.x as text and before it as an address
+		{"100.64.0.0/10", nil},
 	}
 	// single addresses: the host IP of pods from Pod manifests, the one the analyzer gives to pods it derives from
 	// workload resources, the pod IP of Pod manifests, and two strangers
@@ -270,6 +272,41 @@ func exported(r *rng, docs []Doc) []Doc {
 		}
 	}
 	return out
+}
+
+// renameNamespaces gives namespaces other names throughout a resource set (names that begin with a digit are valid
+// and sort among the address ranges, not after them). Only whole words are replaced.
+func renameNamespaces(docs []Doc, m map[string]string) []Doc {
+	out := make([]Doc, len(docs))
+	for i, d := range docs {
+		out[i] = d
+		out[i].Text = renameWords(d.Text, m)
+		out[i].NS = renameWords(d.NS, m)
+		if d.Kind == "Namespace" {
+			out[i].Name = renameWords(d.Name, m)
+		}
+	}
+	return out
+}
+
+func renameWords(s string, m map[string]string) string {
+	isWord := func(b byte) bool {
+		return b == '-' || b == '_' || b >= '0' && b <= '9' || b >= 'a' && b <= 'z' || b >= 'A' && b <= 'Z'
+	}
+	for _, from := range sortedKeys(m) {
+		var sb strings.Builder
+		for i := 0; i < len(s); {
+			if strings.HasPrefix(s[i:], from) && (i == 0 || !isWord(s[i-1])) && (i+len(from) == len(s) || !isWord(s[i+len(from)])) {
+				sb.WriteString(m[from])
+				i += len(from)
+				continue
+			}
+			sb.WriteByte(s[i])
+			i++
+		}
+		s = sb.String()
+	}
+	return s
 }
 
 // respellSelector returns the same selector written differently: the expressions and the values of each in reverse order.
